@@ -111,10 +111,10 @@ def run(ctx):
         by[k] = by.get(k, 0) + 1
     cov.update({
         "evaluations": rep["steps"], "distinct_nontrivial": rep["distinct_cases"],
-        "rule": "7 scripted histories (corpus cases of the four fixed findings; funding-goal option raised / lowered by a finalised configuration proposal while a proposal of that type is being funded; votingDeadline, passPercentage, initialFunding, fundingDeadline of a type changed while proposals of it are in funding / voting) + seeded "
+        "rule": "8 scripted histories (corpus cases of the four fixed findings; two contradicting configuration updates drive a proposal into the finalize-failed store, then the ids of proposals in every state are submitted again; funding-goal option raised / lowered by a finalised configuration proposal while a proposal of that type is being funded; votingDeadline, passPercentage, initialFunding, fundingDeadline of a type changed while proposals of it are in funding / voting) + seeded "
                 "random governance histories on the whole application (Replica): create/fund/vote/cancel/withdraw/public expire/public "
                 "finalize from proposers, funders, strangers, a poor account, validators and non-validators, stake changes, blocks past "
-                "the deadlines; stage-biased generator; every third history runs on a genesis with production-range options where "
+                "the deadlines; stage-biased generator; every third history runs on a genesis with production-range options (half of them start with a pair of contradicting updates, so that finalize-failed is reached; ids of existing proposals, finalize-failed ones first, are submitted again) where "
                 "configuration proposals change fundingGoal / votingDeadline / fundingDeadline / initialFunding / passPercentage of "
                 "every type (and ONS options) while other proposals are in their funding / voting stage; distinct = distinct operation sequences",
         "traces_validated_against_impl": rep["cases"], "blocks": rep["blocks"], "proposals": rep["proposals"],
@@ -143,6 +143,11 @@ def run(ctx):
             ctx.violation("directed_" + nm, {"kind": "a proposal that met the funding goal RECORDED in it before its funding deadline is not in its "
                           "voting stage / was thrown out of it after the funding-goal option of its type was changed by governance",
                           "notes": notes, "args": args, "case_index": ci, "history": describe(cases[ci])})
+    # directed: a proposal is driven into the finalize-failed store; ids of proposals in every state are submitted again
+    if notes.get("finfail_reached") is False or notes.get("finfail_recreate_accepted") or notes.get("finfail_still_terminal") is False:
+        ctx.violation("directed_finfail", {"kind": "the id of an existing proposal was accepted by PROPOSAL_CREATE again / the finalize-failed "
+                      "proposal left its terminal state (or the scenario no longer reaches finalize-failed)",
+                      "notes": notes, "args": args, "case_index": 7, "history": describe(cases[7])})
     for name, ci, commit, what, bad in corpus:
         if bad:
             ctx.violation("corpus_" + name, {"kind": "fixed finding C14.%s (%s) fails again: %s" % (name, commit, what), "notes": notes,
